@@ -292,9 +292,17 @@ func (c *ctx) runFrames(rng *common.RNG) {
 			if !pk {
 				var m *capnp.Message
 				var err error
-				p := common.Guard(func() { m, err = capnp.Unmarshal(in) })
+				// Every other cut is presented as a prefix of the whole stream
+				// (len < cap: the rest of a receive buffer lies behind it); only
+				// the first len bytes are input.
+				uin := in
+				if cut%2 == 1 {
+					uin = stream[:cut]
+					rec.Count("unmarshal_spare_capacity", 1)
+				}
+				p := common.Guard(func() { m, err = capnp.Unmarshal(uin) })
 				rec.Count("unmarshal_calls", 1)
-				cinp := map[string]interface{}{"data_hex": common.Hex(in), "first_frame_len": bounds[0]}
+				cinp := map[string]interface{}{"data_hex": common.Hex(in), "first_frame_len": bounds[0], "spare_capacity": cap(uin) - len(uin)}
 				if !c.panicked(p, "Unmarshal", "prefix", cinp) {
 					if cut >= bounds[0] {
 						if err != nil {
@@ -746,6 +754,19 @@ func (c *ctx) runUnmarshal(rng *common.RNG) {
 		rec.Count("unmarshal_valid_perturbed", 1)
 	}
 	data = data[:len(data):len(data)]
+	if c.idx%3 == 2 {
+		// present the input as a prefix of a larger buffer (len < cap); what lies
+		// behind len is not input and looks like more segment data
+		big := make([]byte, len(data), len(data)+8*(1+int(c.idx%61)))
+		copy(big, data)
+		tail := big[len(data):cap(big)]
+		for i := range tail {
+			tail[i] = 0xA5
+		}
+		data = big
+		desc += "+spare-capacity"
+		rec.Count("unmarshal_spare_capacity", 1)
+	}
 	rec.Case(c.idx, fmt.Sprintf("unmarshal len=%d %s", len(data), desc))
 	rec.Distinct(common.Hash64([]byte("unmarshal"), data))
 	if rec.WantSample() {
